@@ -564,7 +564,19 @@ def body_admix(fams, Ls, ns, mode, nrows=None):
                     env.eq('admix-identity-%s==direct%s' % (variant, list(idx)), ad[idx], dd[idx])
                 env.eq('extrap_x-%s' % variant, fa.extrap_x, xxs[0][1])
             return
-        props = _sym_props(env, nd, nrows)
+        if mode == 'rational':
+            # all-rational proportion matrix with pairwise distinct off-diagonal entries (an index transposition such as
+            # props[1][2] <-> props[2][1] is invisible with identity or symmetric rows); rows sum to one
+            props = []
+            for r in range(nd):
+                offs = [Fr(1 + ((3 * r + 5 * c) % 7), 8 * nd + 6 * r + c) for c in range(nd)]
+                row = [env.const(offs[c]) if c != r else None for c in range(nd)]
+                rest = Fr(1) - sum(offs[c] for c in range(nd) if c != r)
+                assert rest > 0
+                props.append(tuple(env.const(rest) if v is None else v for v in row))
+            props = tuple(props)
+        else:
+            props = _sym_props(env, nd, nrows)
         fa = dadi.Spectrum.from_phi(phi, list(ns), xxs, mask_corners=False, admix_props=props)
         ad = np.ma.getdata(fa)
         tws = [trap_weights(xs) for xs in vals]
@@ -1207,6 +1219,10 @@ def units(tier, seed):
         add('admix-symbolic-rows%d-%s' % (nrows, t), body_admix(f, l, s, 'symbolic', nrows),
             P(f, l, s, admix_props='%d symbolic rows on the simplex' % nrows), _nent(s) + 1, qt=240000,
             timeout=1500 if th else 600)
+    for f, l, s in [(['A', 'B'], [3, 4], [2, 2]), (['A', 'B', 'C'], [3, 3, 3], [1, 2, 1]), (['B', 'C', 'A'], [3, 4, 3], [2, 1, 1]),
+                    (['A', 'B', 'C', 'D'], [3, 3, 3, 3], [1, 1, 1, 1])]:
+        add('admix-rational-asymmetric-' + _tag(f, l, s), body_admix(f, l, s, 'rational'),
+            P(f, l, s, admix_props='all-rational rows with pairwise distinct entries'), _nent(s) + 1)
     f, l, s = ['A', 'B'], [3, 3], [1, 2]
     add('linear-admix-symbolic-' + _tag(f, l, s), body_linear(f, l, s, 'admix', admix='sym'),
         P(f, l, s, admix_props='symbolic'), _nent(s), qt=240000)
